@@ -59,18 +59,18 @@ Print Assumptions C14_readonly_inert_partial_absent.
 
 (* A committed transaction cannot be rolled back: after a successful Commit / Phase2Commit every
    Rollback fails and nothing changes any more. *)
-Theorem C14_no_rollback_after_commit : forall m d0 a e b,
+Theorem C14_no_rollback_after_commit : forall m d0 a e b f,
   is_commit e = true -> result_at (init m d0) a e = ROk ->
-  result_at (init m d0) (a ++ e :: b) CRollback = RErr /\
-  state_after (init m d0) (a ++ e :: b ++ [CRollback]) = state_after (init m d0) (a ++ [e]).
+  result_at (init m d0) (a ++ e :: b) (CRollback f) = RErr /\
+  state_after (init m d0) (a ++ e :: b ++ [CRollback f]) = state_after (init m d0) (a ++ [e]).
 Proof.
-  intros m d0 a e b Hc Hr.
+  intros m d0 a e b f Hc Hr.
   assert (He : is_end e = true) by (destruct e; try discriminate; reflexivity).
   destruct (ended_is_final a e b _ (inv_init m d0) He Hr) as (H2 & Hs & Hcm).
   pose proof (inv_run _ (a ++ e :: b) (inv_init m d0)) as Hi.
-  destruct (step_rollback_committed _ Hi (Hcm Hc)) as [Hr2 Hs2].
+  destruct (step_rollback_committed _ f Hi (Hcm Hc)) as [Hr2 Hs2].
   split; [exact Hr2|].
-  replace (a ++ e :: b ++ [CRollback]) with ((a ++ e :: b) ++ [CRollback]) by (rewrite <- app_assoc; reflexivity).
+  replace (a ++ e :: b ++ [CRollback f]) with ((a ++ e :: b) ++ [CRollback f]) by (rewrite <- app_assoc; reflexivity).
   rewrite state_after_app, state_after_cons, state_after_nil, Hs2. exact Hs.
 Qed.
 Print Assumptions C14_no_rollback_after_commit.
@@ -109,6 +109,45 @@ Proof.
 Qed.
 Print Assumptions C14_finished_is_final.
 
+(* Ends by a failing call.  Rollback and Commit end a begun transaction whatever they return —
+   in particular a Rollback whose undo fails (store-repository step or any other step) and a Commit
+   whose phase 1 or phase 2 fails: afterwards the transaction is finished (phaseDone = 2), so by
+   C14_done_is_final no later call on it changes the stored data, Begin and Commit fail and no store
+   operation succeeds.  Nothing of a rolled back or failed transaction can be persisted by a later
+   Commit on the same object. *)
+Theorem C14_failed_rollback_still_ends : forall m d0 a c c',
+  has_begun (state_after (init m d0) a) = true ->
+  match c with CRollback _ | CCommit _ _ => True | _ => False end ->
+  phase (state_after (init m d0) (a ++ [c])) = 2 /\
+  state_after (init m d0) ((a ++ [c]) ++ [c']) = state_after (init m d0) (a ++ [c]) /\
+  (c' = CBegin -> result_at (init m d0) (a ++ [c]) c' = RErr) /\
+  (forall f1 f2, c' = CCommit f1 f2 -> result_at (init m d0) (a ++ [c]) c' = RErr) /\
+  (is_store_op c' = true -> is_success (result_at (init m d0) (a ++ [c]) c') = false).
+Proof.
+  intros m d0 a c c' Hb Hc.
+  assert (H2 : phase (state_after (init m d0) (a ++ [c])) = 2).
+  { rewrite state_after_app, state_after_cons, state_after_nil. apply step_always_ends; assumption. }
+  split; [exact H2|]. exact (C14_done_is_final m d0 (a ++ [c]) c' H2).
+Qed.
+Print Assumptions C14_failed_rollback_still_ends.
+
+(* Likewise a Phase1Commit that fails, and a Phase2Commit that fails after phase 1 was started.
+   (Phase2Commit called before Phase1Commit is refused without ending the transaction.) *)
+Theorem C14_failed_phase_still_ends : forall m d0 a c c',
+  has_begun (state_after (init m d0) a) = true ->
+  result_at (init m d0) a c = RErr ->
+  match c with CP1 _ => True | CP2 _ => phase (state_after (init m d0) a) = 1 | _ => False end ->
+  phase (state_after (init m d0) (a ++ [c])) = 2 /\
+  state_after (init m d0) ((a ++ [c]) ++ [c']) = state_after (init m d0) (a ++ [c]) /\
+  (is_store_op c' = true -> is_success (result_at (init m d0) (a ++ [c]) c') = false).
+Proof.
+  intros m d0 a c c' Hb Hr Hc.
+  assert (H2 : phase (state_after (init m d0) (a ++ [c])) = 2).
+  { rewrite state_after_app, state_after_cons, state_after_nil. apply step_failed_phase_ends; assumption. }
+  split; [exact H2|]. destruct (C14_done_is_final m d0 (a ++ [c]) c' H2) as (Hs & _ & _ & Ho). split; assumption.
+Qed.
+Print Assumptions C14_failed_phase_still_ends.
+
 (* The lifecycle state only moves forward: -1 -> 0 -> 1 -> 2. *)
 Theorem C14_phase_monotone : forall m d0 a c,
   phase (state_after (init m d0) a) <= phase (state_after (init m d0) (a ++ [c])) /\
@@ -129,7 +168,7 @@ Theorem C14_uncommitted_inert_refuted : exists d0 cs,
   disk (state_after (init ForWriting d0) cs) <> d0 /\ ~ disk_wf (disk (state_after (init ForWriting d0) cs)).
 Proof.
   exists (Some (1, [(1%N, 10%N)])),
-    [CBegin; COpenBtree; CUpdate 1 102 false; CP1 false; CRemove 1 false; CRollback].
+    [CBegin; COpenBtree; CUpdate 1 102 false; CP1 false; CRemove 1 false; CRollback RbNone].
   vm_compute. repeat split; try discriminate.
 Qed.
 Print Assumptions C14_uncommitted_inert_refuted.
@@ -162,7 +201,7 @@ Print Assumptions C14_uncommitted_inert_partial.
 (* non-vacuity: the model is not inert — an ordinary writer life cycle stores an item, after
    which Rollback fails; and the same calls in a read-only transaction store nothing. *)
 Example C14_nonvacuous :
-  let cs := [CBegin; CNewBtree; CAdd 1 5 false; CCommit false false; CRollback] in
+  let cs := [CBegin; CNewBtree; CAdd 1 5 false; CCommit false false; CRollback RbNone] in
   run (init ForWriting None) cs = ([ROk; ROk; ROk; ROk; RErr], state_after (init ForWriting None) cs) /\
   disk (state_after (init ForWriting None) cs) = Some (1, [(1%N, 5%N)]) /\
   results (init ForReading None) cs = [ROk; ROk; RErr; RErr; ROk] /\
